@@ -242,7 +242,7 @@ def greedy_pair(env_o, td_o, env_r, td_r):
         g_o = greedy(env_o, td_o, None)
     B = td_o.batch_size[0]
     try:
-        with time_limit(60):
+        with time_limit(30):
             g_r = greedy(env_r, td_r, pol)
     except Exception as e:  # noqa: BLE001
         g_r = ([[-999]] * B, [-(zlib.crc32(type(e).__name__.encode()) & 0x3FFFFFFF)] * B)
@@ -281,7 +281,7 @@ def side_by_side(kind, what, env_o, td_o, env_r, td_r, content, dtype, strict, r
         er, note = None, ""
         if eo is not None:
             try:
-                with time_limit(60):
+                with time_limit(30):
                     er = play(env_r, td_r, actions=eo["acts"])
             except Exception as e:  # noqa: BLE001  the restored object cannot even be run: every step differs
                 code = -(zlib.crc32(type(e).__name__.encode()) & 0x3FFFFFFF)
@@ -352,12 +352,17 @@ def pick(fam, nmax, rnd):
     return [fam[int(i * step)] for i in range(nmax)]
 
 
-def run_model(ad, tag, fam, workers=16):
-    wd, root = tlc.prepare("c19_persist_" + tag, template="Persist", env_module=ad.module)
+def run_model(ad, tag, fam, workers=16, fault="none"):
+    wd, root = tlc.prepare("c19_persist_" + tag, template="Persist", env_module=ad.module, subst={"FAULT": fault})
     f = os.path.join(wd, "family.json")
     tlc.dump_json(f, fam)
-    tlc.write_cfg(wd, root, spec="PSpec", invariants=MODEL_INV)
+    tlc.write_cfg(wd, root, spec="PSpec", invariants=MODEL_INV[1:5] if fault != "none" else MODEL_INV)   # behavioural clauses alone
     r = tlc.run(wd, root, env={"FAMILY_FILE": f}, coverage=True, workers=workers, heap="3g")
+    if fault != "none":
+        # self-test of the specification: with a deliberately lossy codec the clauses of C19 must fail
+        if not r.violated:
+            raise tlc.TLCError("Persist_%s: a lossy codec does not violate any clause -- the invariants are vacuous" % ad.module)
+        return r
     if r.violated:
         raise tlc.TLCError("Persist_%s: %s violated in the MODEL (original and restored copy of the environment "
                            "model disagree) -- see %s/tlc.log" % (ad.module, r.violated, wd))
@@ -410,14 +415,12 @@ def text_roundtrip(real, td, where, route):
 
         write(where, real.reset(td.clone()))
     if route == "load_data":
-        gcls = type(real).load_data
         td_r = real.load_data(where, batch_size=n)
         from rl4co.envs.scheduling.fjsp.generator import FJSPFileGenerator
         from rl4co.envs.scheduling.jssp.generator import JSSPFileGenerator
 
         files = (JSSPFileGenerator if jssp else FJSPFileGenerator).list_files(where)
         env_r = real
-        del gcls
     else:
         env_r = type(real)(generator_params={"file_path": where}, mask_no_ops=real.mask_no_ops)
         env_r.check_solution = False
@@ -744,7 +747,7 @@ def rec_dataset(tier, seed, recs):
         for dsize in ((1, 3) if quick else (1, 2, 6)):
             for how in (("data_dir",) if quick else ("data_dir", "filename")):
                 s = 4321 + seed + dsize
-                label = "generate_dataset(%s,%s,size=%d,n=%d,%s)" % (problem, dist, size, dsize, how)
+                label = "%s generate_dataset(%s,%s,size=%d,n=%d,%s)" % (envname, problem, dist, size, dsize, how)
                 if how == "data_dir":
                     generate_dataset(data_dir=d, name="c19n%d" % dsize, problem=problem, data_distribution=dist or "all",
                                      dataset_size=dsize, graph_sizes=[size], overwrite=True, seed=s)
@@ -875,7 +878,8 @@ def rec_envcopy(tier, seed, recs):
                     env.reset(batch_size=[2])       # the generator state has moved on since construction
                 B = 2 if quick else 3
                 snap = lambda e: (plain_state(e), plain_state(e.generator))   # noqa: E731
-                label = "%s(%s) %s after %d resets" % (type(env).__name__, "" if callable(params) else (params or ""), how, advance)
+                label = "%s %s(%s) %s after %d resets" % (name, type(env).__name__, "" if callable(params) else (params or ""),
+                                                             how, advance)
 
                 def restored(make):
                     e = make()
@@ -922,8 +926,9 @@ def ckpt_cases(tier):
     cases = [("REINFORCE", "rollout", "tsp"), ("REINFORCE", "exponential", "cvrp")]
     if not quick:
         # (baseline="rollout_only" cannot be trained at all: wrap_dataset runs before the baseline is set up)
-        cases += [("REINFORCE", "no", "tsp"), ("REINFORCE", "mean", "tsp"), ("REINFORCE", "critic", "tsp"), ("AttentionModel", "rollout", "cvrp"), ("AttentionModel", "exponential", "op"),
-                  ("POMO", "shared", "tsp")]
+        cases += [("REINFORCE", "no", "tsp"), ("REINFORCE", "mean", "tsp"), ("REINFORCE", "critic", "tsp"),
+                  ("REINFORCE", "rollout-instance", "tsp"), ("AttentionModel", "rollout", "cvrp"),
+                  ("AttentionModel", "exponential", "op"), ("POMO", "shared", "tsp")]
     return cases
 
 
@@ -939,6 +944,10 @@ def build_module(cls, baseline, envname, seed):
         if baseline == "critic":
             pk = dict(num_encoder_layers=1, num_heads=2, feedforward_hidden=16)   # create_critic_from_actor assumes the default width
         pol = AttentionModelPolicy(env_name=envname, **pk)
+        if baseline == "rollout-instance":      # a baseline OBJECT among the hyper-parameters: pickled into the checkpoint
+            from rl4co.models.rl.reinforce.baselines import RolloutBaseline, WarmupBaseline
+
+            baseline = WarmupBaseline(RolloutBaseline(), n_epochs=1)
         return REINFORCE(env, pol, baseline=baseline, **kw)
     if cls == "AttentionModel":
         return AttentionModel(env, baseline=baseline, policy_kwargs=pk, **kw)
@@ -1006,6 +1015,7 @@ def rec_ckpt(tier, seed, recs, viol, notes):
                           enable_checkpointing=False, enable_progress_bar=False, enable_model_summary=False)
         tr.fit(mod)
         path = os.path.join(d, "%s_%s_%s.ckpt" % (cls, baseline, envname))
+        baseline = str(baseline)
         tr.save_checkpoint(path)
         env = mod.env
         with torch.random.fork_rng():
@@ -1018,7 +1028,7 @@ def rec_ckpt(tier, seed, recs, viol, notes):
             notes.setdefault("baseline_policy_differs_from_policy", {})["%s/%s" % (cls, baseline)] = \
                 not sd_equal(blp_o, mod.policy)[0]
         for lb in (False, True):
-            what = "%s(baseline=%s) on %s, load_from_checkpoint(load_baseline=%s)" % (cls, baseline, envname, lb)
+            what = "checkpoint %s(baseline=%s) on %s, load_from_checkpoint(load_baseline=%s)" % (cls, baseline, envname, lb)
             rest, err = None, None
             for force in (False, True):
                 try:
@@ -1034,7 +1044,7 @@ def rec_ckpt(tier, seed, recs, viol, notes):
                     if not force:
                         err = (where, "%s: %s" % (type(e).__name__, str(e).strip().split("\n")[0][:200]))
                         viol.append({"property": "C19", "env": "checkpoint", "monitor": "library-raised",
-                                     "cls": "load_from_checkpoint",
+                                     "cls": "load_baseline=%s" % lb,
                                      "inst": {"model": cls, "baseline": baseline, "env": envname, "load_baseline": lb,
                                               "where": where, "torch": torch.__version__},
                                      "actions": [], "detail": "%s raised %s at %s" % (what, err[1], where)})
@@ -1082,7 +1092,10 @@ def run(tier, seed):
     ads = replay_adapters(tier)
     fams = [family_of(ad, tier, seed, nmax) for ad, nmax in ads]
     with cf.ThreadPoolExecutor(max_workers=4) as ex:     # the TLC runs side by side, 4 workers each
+        lossy = [ex.submit(run_model, ads[k][0], ads[k][0].name + "_lossy", fams[k][:6], 2, "lossy") for k in (0, 2)]
         models = list(ex.map(lambda k: run_model(ads[k][0], ads[k][0].name, fams[k], workers=4), range(len(ads))))
+        notes["model_self_test"] = {ads[k][0].module: "lossy codec violates " + ", ".join(f.result().violated)
+                                    for k, f in zip((0, 2), lossy)}
     t_model = time.time() - t0
     for (ad, _), fam, model in zip(ads, fams, models):
         t1 = time.time()
